@@ -1,0 +1,61 @@
+//go:build verif
+
+package compression
+
+// Contracts for the compression registry (C20, used by C17).
+//
+// The wire format an instance produces or reads is fixed by its dynamic type: the tables
+// below (assumed; they restate what the library packages are) map the library types and
+// this package's thin wrappers to the format numbers of conformancev1.Compression
+// (1 identity, 2 gzip, 3 br, 4 zstd, 5 deflate = zlib framing, 6 snappy).
+
+//@ axiom cmpTable: forall c connect.Compressor ::
+//@    (typeis(c, *noOpCompressor) ==> cmpFormat(c) == 1) && (typeis(c, *gzip.Writer) ==> cmpFormat(c) == 2) &&
+//@    (typeis(c, *brotli.Writer) ==> cmpFormat(c) == 3) && (typeis(c, *zstd.Encoder) ==> cmpFormat(c) == 4) &&
+//@    (typeis(c, *zlib.Writer) ==> cmpFormat(c) == 5) && (typeis(c, *snappy.Writer) ==> cmpFormat(c) == 6) &&
+//@    (typeis(c, *errorCompressor) ==> cmpFormat(c) == 0)
+//@ axiom decTable: forall d connect.Decompressor ::
+//@    (typeis(d, *noOpDecompressor) ==> decFormat(d) == 1) && (typeis(d, *gzip.Reader) ==> decFormat(d) == 2) &&
+//@    (typeis(d, *brotliDecompressor) ==> decFormat(d) == 3) && (typeis(d, *zstdDecompressor) ==> decFormat(d) == 4) &&
+//@    (typeis(d, *deflateDecompressor) ==> decFormat(d) == 5) && (typeis(d, *snappyDecompressor) ==> decFormat(d) == 6) &&
+//@    (typeis(d, *errorDecompressor) ==> decFormat(d) == 0)
+
+// format 0 is the sentinel that fails on first use (constructor error)
+//@ spec wantFormat(c int) int = c == 0 ? 1 : c
+
+//@ func GetCompressor
+//@   modifies nothing
+//@   ensures @known (result_1 == nil) == (0 <= compression && compression <= 6)
+//@   ensures @format result_1 == nil ==> result_0 != nil && (cmpFormat(result_0) == wantFormat(compression) || cmpFormat(result_0) == 0)
+//@   ensures @identity result_1 == nil && compression <= 1 ==> cmpFormat(result_0) == 1
+
+//@ func GetDecompressor
+//@   modifies nothing
+//@   ensures @known (result_1 == nil) == (0 <= compression && compression <= 6)
+//@   ensures @format result_1 == nil ==> result_0 != nil && (decFormat(result_0) == wantFormat(compression) || decFormat(result_0) == 0)
+//@   ensures @identity result_1 == nil && compression <= 1 ==> decFormat(result_0) == 1
+
+//@ func NewBrotliCompressor
+//@   modifies nothing
+//@   ensures result != nil && cmpFormat(result) == 3
+//@ func NewZstdCompressor
+//@   modifies nothing
+//@   ensures result != nil && (cmpFormat(result) == 4 || cmpFormat(result) == 0)
+//@ func NewDeflateCompressor
+//@   modifies nothing
+//@   ensures result != nil && cmpFormat(result) == 5
+//@ func NewSnappyCompressor
+//@   modifies nothing
+//@   ensures result != nil && cmpFormat(result) == 6
+//@ func NewBrotliDecompressor
+//@   modifies nothing
+//@   ensures result != nil && decFormat(result) == 3
+//@ func NewZstdDecompressor
+//@   modifies nothing
+//@   ensures result != nil && (decFormat(result) == 4 || decFormat(result) == 0)
+//@ func NewDeflateDecompressor
+//@   modifies nothing
+//@   ensures result != nil && decFormat(result) == 5
+//@ func NewSnappyDecompressor
+//@   modifies nothing
+//@   ensures result != nil && decFormat(result) == 6
